@@ -923,10 +923,28 @@ func cmd5(c *Ctx) {
 			args = p
 		}
 	}
-	// the version test
+	// the version test: a helper call deciding the entry block, or `version != nil && firstItem(args, names)` inline
 	var test *ssa.Call
+	inline := false
+	isVersionNilTest := func(v ssa.Value) bool {
+		bo, ok := v.(*ssa.BinOp)
+		if !ok || bo.Op != token.NEQ || !ir.IsNilConst(bo.Y) {
+			return false
+		}
+		_, f, isF := ir.FieldLoad(bo.X)
+		return isF && f == "version"
+	}
 	if iff, ok := fn.Blocks[0].Instrs[len(fn.Blocks[0].Instrs)-1].(*ssa.If); ok {
-		test, _ = iff.Cond.(*ssa.Call)
+		if cv, isCall := iff.Cond.(*ssa.Call); isCall {
+			test = cv
+		} else if isVersionNilTest(iff.Cond) {
+			nb := fn.Blocks[0].Succs[0]
+			if iff2, ok2 := nb.Instrs[len(nb.Instrs)-1].(*ssa.If); ok2 {
+				if cv, isCall := iff2.Cond.(*ssa.Call); isCall && cv.Block() == nb {
+					test, inline = cv, true
+				}
+			}
+		}
 	}
 	if test == nil || ir.Static(test) == nil {
 		c.Bad(Q(fn)+":version-first", fn.Pos(), "the first thing decided is not a version test")
@@ -936,9 +954,25 @@ func cmd5(c *Ctx) {
 	c.Mark(vt)
 	okFirst := true
 	why := ""
+	for _, e := range ir.EdgesWhere(fn, test, true) {
+		region := ir.Reach(e.To, nil, nil)
+		for _, call := range ir.Calls(fn) {
+			if ir.Static(call) == disp && region[call.Block()] {
+				okFirst, why = false, "the command parser can be entered although the version was requested"
+			}
+		}
+	}
+	// nothing but the test precedes the delegation
 	for _, call := range ir.Calls(fn) {
-		if ir.Static(call) == disp && !ir.HoldsAt(test, false, call.Block()) {
-			okFirst, why = false, "the command parser is entered without the version test having failed"
+		if ir.Static(call) == disp {
+			for _, other := range ir.Calls(fn) {
+				if other == call || other == ssa.CallInstruction(test) {
+					continue
+				}
+				if other.Block().Dominates(call.Block()) && other.Block() != call.Block() {
+					okFirst, why = false, "something other than the version test runs before the command parser"
+				}
+			}
 		}
 	}
 	hasArgs := false
@@ -981,7 +1015,41 @@ func cmd5(c *Ctx) {
 	okTest := false
 	why = "the version test is not `declared && first argument among the version option's names`"
 	var first *ssa.Function
+	// checkFirstCall: callEdge = firstItem(args', names) evaluated under the nil test of the version record
+	checkFirstCall := func(host *ssa.Function, callEdge *ssa.Call, vec ssa.Value) bool {
+		guard := false
+		ir.Instrs(host, func(in ssa.Instruction) {
+			if v, ok := in.(ssa.Value); ok && isVersionNilTest(v) && ir.HoldsAt(v, true, callEdge.Block()) {
+				guard = true
+			}
+		})
+		if !guard {
+			why = "the presence test is not a nil test of the record Version() creates (a declared version flag could be ignored)"
+			return false
+		}
+		var vargs, names ssa.Value
+		for _, a := range callEdge.Call.Args {
+			if a == vec {
+				vargs = a
+			}
+			if _, f, isF := ir.FieldLoad(a); isF && f == "Names" {
+				names = a
+			}
+		}
+		if vargs == nil || names == nil {
+			why = "the first-item test is not applied to (args, version option names)"
+			return false
+		}
+		first = ir.Static(callEdge)
+		return first != nil
+	}
+	if inline {
+		okTest = checkFirstCall(fn, test, ssa.Value(args))
+	}
 	for _, r := range ir.Returns(vt) {
+		if inline {
+			break
+		}
 		phi, isPhi := r.Results[0].(*ssa.Phi)
 		if !isPhi || len(phi.Edges) != 2 {
 			continue
@@ -998,39 +1066,15 @@ func cmd5(c *Ctx) {
 		if !falseEdge || callEdge == nil {
 			continue
 		}
-		// guard: a nil test of the field Version() sets
-		guard := false
-		ir.Instrs(vt, func(in ssa.Instruction) {
-			bo, ok := in.(*ssa.BinOp)
-			if !ok || bo.Op != token.NEQ || !ir.IsNilConst(bo.Y) {
-				return
-			}
-			if _, f, isF := ir.FieldLoad(bo.X); isF && f == "version" && ir.HoldsAt(bo, true, callEdge.Block()) {
-				guard = true
-			}
-		})
-		if !guard {
-			why = "the presence test is not a nil test of the record Version() creates (a declared version flag could be ignored)"
-			continue
+		if len(vt.Params) >= 2 && checkFirstCall(vt, callEdge, ssa.Value(vt.Params[1])) {
+			okTest = true
 		}
-		// names: version.option.Names
-		var vargs, names ssa.Value
-		for _, a := range callEdge.Call.Args {
-			if a == ssa.Value(vt.Params[1]) {
-				vargs = a
-			}
-			if _, f, isF := ir.FieldLoad(a); isF && f == "Names" {
-				names = a
-			}
-		}
-		if vargs == nil || names == nil {
-			why = "the first-item test is not applied to (args, version option names)"
-			continue
-		}
-		first = ir.Static(callEdge)
-		okTest = true
 	}
-	c.Check(okTest, Q(vt), vt.Pos(), "requested iff a version was declared and the first argument is one of the option's names", why)
+	testKey := Q(vt)
+	if inline {
+		testKey = Q(fn) + ":version-test"
+	}
+	c.Check(okTest, testKey, vt.Pos(), "requested iff a version was declared and the first argument is one of the option's names", why)
 	if first != nil {
 		c.Mark(first)
 		cmd5first(c, first)
@@ -1256,6 +1300,91 @@ func linEq(a, b lin) bool {
 	return isC && k == 0
 }
 
+// aliasHolds: at block b it is established that `child` (an element of recv.commands, or a phi of
+// such elements and nil that is known non-nil at b) answered isAlias(tok) with true. It returns the
+// token value tested.
+func (c *Ctx) aliasHolds(fn *ssa.Function, recv ssa.Value, child ssa.Value, b *ssa.BasicBlock) (tok ssa.Value, why string) {
+	isAlias := c.fnOpt("", "Cmd.isAlias")
+	direct := func(elem ssa.Value, at *ssa.BasicBlock) (ssa.Value, string) {
+		sl, isR := rangeElem(elem)
+		if !isR {
+			return nil, "the child is not taken from the receiver's command list"
+		}
+		if lb, ok := fieldOf(sl, "commands"); !ok || lb != recv {
+			return nil, "the child is not a direct sub-command of the receiver"
+		}
+		for _, c2 := range ir.Calls(fn) {
+			av, ok := c2.(*ssa.Call)
+			if !ok || ir.Static(av) != isAlias || isAlias == nil || len(av.Call.Args) != 2 || av.Call.Args[0] != elem {
+				continue
+			}
+			if ir.HoldsAt(av, true, at) || edgeOutTrue(av, at) {
+				return av.Call.Args[1], ""
+			}
+		}
+		return nil, "the child is entered without its isAlias(token) being true"
+	}
+	phi, isPhi := child.(*ssa.Phi)
+	if !isPhi {
+		return direct(child, b)
+	}
+	// must be known non-nil at b
+	nonNil := false
+	for _, u := range *phi.Referrers() {
+		if bo, ok := u.(*ssa.BinOp); ok && ir.IsNilConst(bo.Y) {
+			if (bo.Op == token.NEQ && ir.HoldsAt(bo, true, b)) || (bo.Op == token.EQL && ir.HoldsAt(bo, false, b)) {
+				nonNil = true
+			}
+		}
+	}
+	if !nonNil {
+		return nil, "the child may be nil where it is entered"
+	}
+	var toks []ssa.Value
+	var collect func(v ssa.Value, at *ssa.BasicBlock, depth int) string
+	collect = func(v ssa.Value, at *ssa.BasicBlock, depth int) string {
+		if ir.IsNilConst(v) {
+			return ""
+		}
+		if p2, ok := v.(*ssa.Phi); ok && depth < 5 {
+			for i, e := range p2.Edges {
+				if w := collect(e, p2.Block().Preds[i], depth+1); w != "" {
+					return w
+				}
+			}
+			return ""
+		}
+		t, w := direct(v, at)
+		if w != "" {
+			return w
+		}
+		toks = append(toks, t)
+		return ""
+	}
+	if w := collect(phi, b, 0); w != "" {
+		return nil, w
+	}
+	if len(toks) == 0 {
+		return nil, "the child is never a sub-command"
+	}
+	for _, t := range toks[1:] {
+		if t != toks[0] && ir.ExprKey(t) != ir.ExprKey(toks[0]) {
+			return nil, "the alias is tested against different tokens"
+		}
+	}
+	return toks[0], ""
+}
+
+// edgeOutTrue: block at ends in `if v` and is left through its true edge only to continue (used for
+// phi edges whose predecessor is the very block that tests v).
+func edgeOutTrue(v ssa.Value, at *ssa.BasicBlock) bool {
+	if len(at.Instrs) == 0 {
+		return false
+	}
+	iff, ok := at.Instrs[len(at.Instrs)-1].(*ssa.If)
+	return ok && iff.Cond == v && len(at.Succs) == 2 && at.Succs[0] != at.Succs[1] && false
+}
+
 func cmd6(c *Ctx) {
 	fn := c.dispatch()
 	if fn == nil {
@@ -1326,29 +1455,10 @@ func cmd6(c *Ctx) {
 		}
 		key := fmt.Sprintf("%s:%s", Q(fn), kind)
 		var problems []string
-		// sub is an element of the receiver's direct commands
-		if sl, isR := rangeElem(sub); !isR {
-			problems = append(problems, "the child is not taken from the receiver's command list")
-		} else if b, ok := fieldOf(sl, "commands"); !ok || b != ssa.Value(recv) {
-			problems = append(problems, "the child is not a direct sub-command of the receiver")
-		}
-		// isAlias(sub, tok) true
-		var tok ssa.Value
-		for _, c2 := range ir.Calls(fn) {
-			av, ok := c2.(*ssa.Call)
-			if !ok {
-				continue
-			}
-			f := ir.Static(av)
-			if f == nil || f != c.fnOpt("", "Cmd.isAlias") || len(av.Call.Args) != 2 || av.Call.Args[0] != sub {
-				continue
-			}
-			if ir.HoldsAt(av, true, cv.Block()) {
-				tok = av.Call.Args[1]
-			}
-		}
-		if tok == nil {
-			problems = append(problems, "the child is entered without its isAlias(token) being true")
+		// the child: a direct sub-command whose alias is the token at the level split
+		tok, whyAlias := c.aliasHolds(fn, ssa.Value(recv), sub, cv.Block())
+		if whyAlias != "" {
+			problems = append(problems, whyAlias)
 		} else {
 			tb, tp, okT := c.elemPos(tok)
 			vb, vo, okV := c.vecView(cv.Call.Args[1])
@@ -1526,6 +1636,24 @@ func cmd7(c *Ctx) {
 						good = true
 					}
 				}
+			}
+			if !good {
+				// found through a lookup that yields the matching sub-command or nil
+				ir.Instrs(fn, func(in ssa.Instruction) {
+					bo, ok := in.(*ssa.BinOp)
+					if !ok || !ir.IsNilConst(bo.Y) {
+						return
+					}
+					if _, isPhi := bo.X.(*ssa.Phi); !isPhi {
+						return
+					}
+					if !((bo.Op == token.NEQ && ir.HoldsAt(bo, true, r.Block())) || (bo.Op == token.EQL && ir.HoldsAt(bo, false, r.Block()))) {
+						return
+					}
+					if t, w := c.aliasHolds(fn, ssa.Value(recv), bo.X, r.Block()); w == "" && (t == tok || ir.ExprKey(t) == ir.ExprKey(tok)) {
+						good = true
+					}
+				})
 			}
 			if !good {
 				problems = append(problems, fmt.Sprintf("the scan stops at %s for a reason other than the token being an alias of a direct sub-command", c.P.Pos(r.Pos())))
